@@ -35,12 +35,11 @@ EPS = K.EPS
 # is printed when the case is hit, and `clause_witnesses` in the evidence lists which hand-made case produced which clause.
 # Former defect (b) (`keepLastRow`) is repaired in /repo (commit 9a9bf4d) and `GMRES.dropLastRow = false` mirrors it; the clause
 # name is still produced by the oracle so that a regression shows up as a VIOLATION.
+# The former mixed-dtype defect (Krylov buffers in the operator's dtype lost the imaginary part of a complex right-hand side) is
+# repaired in /repo (commit a98c0be): stream D goes through the NORMAL three-way comparison, there is no excuse path for it.
 PROVISIONAL_KNOWN = set()
-MIXED = K.MIXED
 
 WHAT = {
-    MIXED: "arnoldi allocates its buffers with dtype=A.dtype: a complex right-hand side on a real operator loses the imaginary part of "
-           "its residual; gmres returns a wrong solution (or raises)",
     "keepLastRow": "gmres_fwd drops the last row of the Hessenberg matrix (`H[:, :-1, :]`): it solves the square system "
                    "H_m y = beta e1 (Galerkin/FOM iterate) instead of min |beta e1 - H~_m y|: the residual is not minimal, can exceed "
                    "the initial residual and grow with m; a singular H_m raises LinAlgError",
@@ -54,7 +53,8 @@ WHAT = {
               "solves no longer represents the residual: wrong iterate (residual O(1) at m = n)",
     "stopExact": "the Arnoldi loop stops by its tolerance test (norm <= tol*H[1,0]) before max_iters and before the Krylov space is "
                  "exhausted: the iterate minimises over K_s with s < min(m, grade) only, so the residual is not zero at m >= n and not "
-                 "minimal over K_m (the theorems C13_krylov_optimal are about K_s, s = executed steps)",
+                 "minimal over K_m (C13_steps: s = min(max_iters, n, first index at which the test fires); C13_krylov_optimal is about K_s, "
+                 "C13_krylov_optimal_at_cap / C13_exact_at_grade_of_inputs give K_min(m,n) / zero residual when the test does not fire early)",
     "breakdownNotMasked": "floating point only: a column whose Krylov space is exhausted keeps being stepped (batch, or breakdown in the "
                           "first step); amplified rounding noise enters H and the padding mask",
 }
@@ -93,6 +93,12 @@ def special_cases():
     out.append(dict(base, n=3, M=2, tol=1e-7, grades=[0], A=K.tojson(eye3), B=K.tojson(np.array([[1., 0, 0]])), X0=K.tojson(np.array([[1., 0, 0]]))))
     # b = 0
     out.append(dict(base, n=3, M=2, tol=1e-7, grades=[0], A=K.tojson(2 * eye3), B=K.tojson(np.zeros((1, 3))), X0=K.tojson(np.zeros((1, 3)))))
+    # a batch whose column 0 has an exact x0 (zero residual -> NaN in THAT column only) next to an ordinary column: the ordinary column
+    # must satisfy every statement of the property (per-column attribution of clause zeroResidual)
+    Az = np.array([[2., 1., 0.], [1., 3., 1.], [0., 1., 4.]])
+    Xz = np.array([[1., 2., 3.], [0., 0., 0.]])
+    out.append(dict(base, n=3, M=3, tol=1e-7, grades=[0, 3], rhs=["special"] * 2, single=False, A=K.tojson(Az),
+                    B=K.tojson(np.stack([Az @ Xz[0], np.array([1., 0., 0.])])), X0=K.tojson(Xz)))
     # the 2x2 witness of C13_keepLastRow_clause_needed: A = [[1,2],[0,1]], b = e2, m = 1: FOM residual 2 > 1 = |r0|
     out.append(dict(base, n=2, M=1, tol=1e-7, grades=[2], A=K.tojson(np.array([[1., 2.], [0., 1.]])), B=K.tojson(np.array([[0., 1.]])), X0=K.tojson(np.zeros((1, 2)))))
     # singular Galerkin matrix: A = [[0,1],[1,1]], b = e1, m = 1: H_1 = [0]
@@ -210,6 +216,38 @@ def real_arnoldi(case):
         return None, 0
 
 
+def is_large(Hc, idx, tol):
+    """the float test of cond_fun (arnoldi_fact) for ONE column at loop index idx >= 1: `norm > tol * H[1,0].real`, norm = H[idx, idx-1];
+    False for a NaN column, exactly as in the code (a zero-residual column never keeps the shared loop alive)"""
+    return bool(Hc[idx, idx - 1].real > tol * Hc[1, 0].real)
+
+
+def singular_columns(case, H):
+    """An exception `LinAlgError: Singular matrix` of the batched xnp.solve is raised for the whole batch but CAUSED by one column: the
+    columns whose normal matrix H~^H H~ + diag(padding) (what gmres_fwd hands to the solver, recomputed from the real Arnoldi buffers)
+    LAPACK rejects; if the re-computation is not bit-identical, the numerically singular ones (cond >= 1e15).  A NaN matrix (zero
+    residual column) is not rejected by LAPACK and is never a culprit."""
+    tol, M = case["tol"], case["M"]
+    exact, numer = [], []
+    if H is None or not M:
+        return []
+    for c in range(H.shape[0]):
+        Hc = H[c]
+        if not np.all(np.isfinite(Hc)):
+            continue
+        largest = np.abs(Hc).max(axis=0)
+        pad = (largest < 10 * tol * largest.max()).astype(Hc.dtype)
+        G = Hc.conj().T @ Hc + np.diag(pad)
+        try:
+            np.linalg.solve(G, Hc.conj().T[:, 0])
+        except np.linalg.LinAlgError:
+            exact.append(c)
+            continue
+        if not np.all(np.isfinite(G)) or np.linalg.cond(G) >= 1e15:
+            numer.append(c)
+    return exact or numer
+
+
 def column_diagnosis(case, H, steps, c):
     """What the CURRENT gmres_fwd (cola/linalg/inverse/gmres.py, after commit 9a9bf4d) does with the Arnoldi buffers of column c:
          largest_vals = max(|H|, axis=-2)            # per COLUMN of the (M+1) x M Hessenberg matrix, all M+1 rows
@@ -238,8 +276,7 @@ def column_diagnosis(case, H, steps, c):
     mask_inexact = any(bool(mask[j]) != (j >= s_eff) for j in range(M))
     beta = [Hc[i + 1, i].real for i in range(steps)]
     clipped = any(noise < b < tol / 2 for b in beta)
-    rule_says_stop = steps > 0 and all(np.all(np.isfinite(H[cc])) and H[cc][steps, steps - 1].real <= tol * H[cc][1, 0].real
-                                       for cc in range(H.shape[0]))
+    rule_says_stop = steps > 0 and not any(is_large(H[cc], steps, tol) for cc in range(H.shape[0]))
     early_stop = 0 < steps < min(M, n) and beta[steps - 1] > noise and rule_says_stop
     return {"garbage": garbage, "mask_inexact": mask_inexact, "clipped": clipped, "early_stop": early_stop}
 
@@ -333,8 +370,8 @@ def normal_cond(model, c, M, tol, drop_rows=True):
 
 def compare_real_model(case, real, model):
     if "exception" in real or "error" in model:
-        if "exception" in real and "error" not in model and not np.all(np.isfinite(model["x"])):
-            return []       # real raises (LinAlgError: singular normal matrix), the model's elimination returns non-finite values
+        if "exception" in real and "Singular" in real["exception"] and "error" not in model and not np.all(np.isfinite(model["x"])):
+            return []       # real raises LinAlgError (singular normal matrix) <-> the model's elimination hits a zero pivot: non-finite values
         if "exception" in real and "error" not in model and "Singular" in real["exception"]:
             A, an = K.norms(case)
             st = model["steps"]
@@ -390,28 +427,36 @@ def spec_check(case, real):
     n, M = case["n"], case["M"]
     k = B.shape[0]
     R0 = B - X0 @ A.T
+    # columns whose initial residual is EXACTLY zero (clause zeroResidual): init_arnoldi divides such a column by its norm 0, the column
+    # of Q/H/x is NaN.  The batch members are computed independently (cond_fun: NaN > x is False; solve, mask and Q @ y are per member),
+    # so a zero-residual column explains NaN in THAT column of the solution and nothing else — not an exception, not another column.
     zero_res = [c for c in range(k) if np.linalg.norm(R0[c]) == 0.0]
-    Hreal, steps_real = real_arnoldi(case) if not zero_res else (None, 0)
+    Hreal, steps_real = real_arnoldi(case)
     nodiag = {"garbage": False, "mask_inexact": False, "clipped": False, "early_stop": False}
     diag = [column_diagnosis(case, Hreal, steps_real, c) if Hreal is not None else nodiag for c in range(k)]
     if "exception" in real:
-        clause = "zeroResidual" if zero_res else None
-        if clause is None and "Singular" in real["exception"]:
-            clause = ("breakdownNotMasked" if any(d["garbage"] for d in diag) else "noClip" if any(d["clipped"] for d in diag)
-                      else "maskExact" if any(d["mask_inexact"] for d in diag) else "keepLastRow")
+        clause = None
+        if "Singular" in real["exception"]:
+            # attributed to the column(s) whose normal matrix the solver rejects, by the diagnosis of THAT column
+            culprits = singular_columns(case, Hreal)
+            dc = [diag[c] for c in culprits]
+            clause = ("breakdownNotMasked" if any(d["garbage"] for d in dc) else "noClip" if any(d["clipped"] for d in dc)
+                      else "maskExact" if any(d["mask_inexact"] for d in dc) else "keepLastRow" if culprits else None)
+            return [("raises", clause, real["exception"] + f" [singular normal matrix in column(s) {culprits}]")]
         return [("raises", clause, real["exception"])]
     xopt, dims = oracle(case)
     # the stopping rule of the Arnoldi loop GMRES runs (C15_stopping), both directions, on the buffers it works with; exact float
     # comparisons: `norm` is stored as H[idx, idx-1] and `tol * H[1,0]` is the expression cond_fun evaluates
-    if Hreal is not None and np.all(np.isfinite(Hreal)):
+    # (a NaN column — zero residual — counts as "not large", as in cond_fun)
+    if Hreal is not None:
         tol = case["tol"]
         for idx in range(1, steps_real + 1):
-            small = all(Hreal[cc][idx, idx - 1].real <= tol * Hreal[cc][1, 0].real for cc in range(k))
+            small = not any(is_large(Hreal[cc], idx, tol) for cc in range(k))
             if idx < steps_real and small:
                 fails.append(("arnoldi-stops-too-late", None, f"at index {idx} every column had norm <= tol*H[1,0] but {steps_real - idx} more steps were executed"))
                 break
             if idx == steps_real and steps_real < min(M, n) and not small:
-                big = [cc for cc in range(k) if not Hreal[cc][idx, idx - 1].real <= tol * Hreal[cc][1, 0].real]
+                big = [cc for cc in range(k) if is_large(Hreal[cc], idx, tol)]
                 fails.append(("arnoldi-stops-too-early", None, f"stopped after {steps_real} < min(max_iters, n) = {min(M, n)} steps although column {big[0]} has "
                                                                f"norm {Hreal[big[0]][idx, idx - 1].real:.3e} > tol*H[1,0] = {tol * Hreal[big[0]][1, 0].real:.3e}"))
     # products with the operator: at most min(m, n) Krylov products per column plus the one forming r0
@@ -426,7 +471,7 @@ def spec_check(case, real):
         b, x0 = B[c], X0[c]
         nb = max(np.linalg.norm(b), np.linalg.norm(R0[c]), 1e-300)
         if not np.all(np.isfinite(x)):
-            clause = "zeroResidual" if (c in zero_res or zero_res) else None
+            clause = "zeroResidual" if c in zero_res else None        # only the column's OWN zero residual explains its NaN
             fails.append(("non-finite", clause, f"col {c}: solution contains NaN/inf; |b - A x0| = {np.linalg.norm(R0[c]):.3e}"))
             continue
         res = np.linalg.norm(b - A @ x)
@@ -495,12 +540,6 @@ class Engine(K.Engine):
         ctx = self.ctx
         mism = compare_real_model(case, real, model)
         fails = spec_check(case, real)
-        if case.get("mixed") and (mism or fails):
-            # real operator, complex right-hand side: outside the one-scalar-type Lean model; mechanism confirmed on the real code
-            Hreal, _ = real_arnoldi(case)
-            if Hreal is not None and not np.iscomplexobj(Hreal) and np.abs(K.fromjson(case["B"], True).imag).max() > 0:
-                mism = []
-                fails = [(f[0], MIXED, f[2]) for f in fails] or [("iterate=minimiser", MIXED, "Arnoldi buffers are real for a complex residual")]
         if mism:
             self.dist["outcomes"]["real!=model"] += 1
             hard = self.unexcused(fails)
@@ -659,7 +698,12 @@ def run(ctx):
         "'at most m products with the operator per column' is read as: at most min(m, n) Krylov products plus the one product that forms "
         "the initial residual b - A x0 (the code forms A @ x0 even for the default x0 = 0): the literal count is min(m, n) + 1",
         "preconditioner P, use_householder, use_triangular are outside the model (defaults only)",
-        "mixed dtypes (real operator, complex right-hand side) are outside the Lean model (one scalar type): the truncation mechanism "
-        "is confirmed on the real code by the harness (clause %s)" % MIXED])
+        "mixed dtypes (stream D: real operator, complex right-hand side): the Lean model has one scalar type, so the model is run on the "
+        "operator cast to the promoted (complex) dtype while the real code gets the real operator; the results go through the normal "
+        "comparison (the former truncation defect is repaired in /repo, commit a98c0be; there is no excuse path)",
+        "batches: the Arnoldi loop is shared (cond_fun: any column large), so every column is stepped S >= its own single-run count "
+        "times; C13_batch_krylov_optimal / C13_batch_exact_at_grade are per column about K_S; the recorded clauses are attributed per "
+        "column (a NaN column is explained by zeroResidual only if THAT column has b - A x0 = 0; an exception by the column whose "
+        "normal matrix is singular)"])
     print(json.dumps({"outcomes": cov["outcomes"], "distinct_nontrivial": cov["distinct_nontrivial"], "clauses": cov["distributions"]["clauses"],
                       "gate": (gate or {}).get("obligations"), "wall_s": round(ctx.wall(), 1)}))
